@@ -223,7 +223,9 @@ let g_tags (ints : n list list) (t : xetop) : string =
   String.concat "," (List.filter (fun x -> x <> "") [
     (if List.exists bad_arity es then "arity" else "");
     (if has is_int_lit then "int_literal" else "");
-    (if has is_int_col then "int_column" else "") ])
+    (if has is_int_col then "int_column" else "");
+    (* a failing round(x, p): the bridge re-evaluates the text with expr-lang's own round *)
+    (if List.exists (function ECall (g, [ _; _ ]) -> str_of_bytes g = "round" | _ -> false) es then "round2" else "") ])
   |> (fun s -> if s = "" then "-" else s)
 
 let handle_g (path : string) (shape : string) (fname : string) (rest : string list) : string =
